@@ -10,28 +10,36 @@ and `get_object_status` are observed.  The Lean model receives the four pass/fai
 layout, counts, errors, summaries, rates, confusion matrix and tallies.  The oracle states the property on
 the real outputs with references recomputed from the generated scene, independent of the model.
 
-Selections: for every selection the selected table itself is observed (pair indices, counts over it, row-wise keyword counts).
+Selections: for every selection the selected table itself is observed (the selected row pairs, counts over it, row-wise keyword counts).
 The model must select the same pairs (`PEval.Analyzer.selectTable`); the oracle evaluates the documented pair predicate on the
 generated scene (every given keyword carried by SOME row of the pair; SOME row with d0 <= ego-frame distance < d1, exact rational
 arithmetic, undecided within 1e-6 of a bound in the map frame) and demands that the selected table holds exactly those pairs, whole
-and in order, and that counts, paired rows, the confusion-matrix total and the error summaries are those of the selected items.
+(in any order), and that counts, paired rows, the confusion-matrix total and the error summaries are those of the selected items.
+Row pairs are identified by what they are - (scene, frame, status, uuid of the ground-truth row, uuid of the estimation row) - never by
+their place or number in the table: the property fixes neither.  An inverted distance range (min >= max) is not a selection: not judged.
 
-Known findings (the model reproduces them, the oracle fails on them, `known_finding` recognises exactly
-the characterised deviation): F11 (double count of an ordinary GT paired with a failing estimate), N1
-(per-label TP rate above one when TP pairs have different labels), N2 (`num_*` raise TypeError on an empty
-table).
+Known findings (F11, N1, N2 - the only ids `known_finding` returns, all of kind "known" in known_findings.json): the oracle states every
+clause so that the property-conform behaviour passes, and attributes to a finding only its exact listed deviation -
+F11: ground-truth count = conform count + number of ground truths held by an FP row pair AND by an FN row pair; tallies = one extra
+(total, FP) entry per frame in which an FP result carries the ground truth as an ordinary one that the frame also lists FN.  Conform (each
+accepted): the FN list no longer lists a carried ground truth; the FP row pair holds the estimate only; the count de-duplicates; the tallies
+record the ground truth once under either status the lists give it.
+N1: a per-label TP rate v > 1 with v == #TP pairs of the selection whose ESTIMATE has the label / #ground-truth rows of the selection with
+the label, and such a TP pair with another ground-truth label inside the selection.
+N2: num_* raising TypeError on a table built from zero items (returning 0 is conform, per getter).
+The model reproduces the defective behaviour; `compare` accepts the modelled and the conform outcome on exactly those inputs (see `compare`),
+the table layout is probed on the real table and handed to the model (`_gt_dropped_pairs`), N2 is probed on the real class (`_empty_raises`).
 
 Additions after the audit: (a) op `raw_rows`: the model also receives the objects AS GIVEN to the real code (base_link or map frame,
 with heights, and the frame's ego pose) and applies its own model of `transforms.transform((frame, BASE_LINK), ...)` of `format2dict` /
 `get_area_idx` (`PEval.Analyzer.addAllRaw`); the resulting x, y, yaw, area and distance columns are compared with the real table.
 (b) `GroundTruthStatus.get_status_rates()`, `StatusRate.rate` and `get_scene_rates()` are observed on the real records and compared
-with `PEval.Analyzer.statusRates` / `sceneRates`; the oracle demands rate = #tally entries of the status / #tally entries, in [0,1],
-scene rates summing to 1; `float("inf")` for a status that never occurred is reproduced by the model and not judged (an observation,
-not a clause of C19).
+with `PEval.Analyzer.statusRates` / `sceneRates` (defined rates only, as a mapping status -> rate); they are OBSERVED, not judged: the
+oracle has no clause about them (not clauses of C19); what a never-occurred status or an empty list yields is left open.
 (c) flavour `n3` and corpus case n3.json: pass/fail target labels that hold "false_positive" while the config's do not; an FP result then
 keeps an FP-labelled ground truth; `get_confusion_matrix()` / `analyze()` used to raise ValueError there (N3, fixed in /repo by 24663d1: the
-labels met in the paired rows are appended to the index of the matrix); the model follows the repaired code (index and order of the appended
-labels are compared), the oracle judges these cases like any other.
+labels met in the paired rows are appended to the index of the matrix); the model follows the repaired code (the matrix is compared as a
+mapping (row label, column label) -> count: the property does not fix the order of the index), the oracle judges these cases like any other.
 """
 from __future__ import annotations
 
@@ -128,9 +136,14 @@ ASSUMPTIONS = [
     "ValueError there (pre-fix model getConfusionMatrixOld / analyzeOld, PEval.C19.confusion_error_iff); the repaired code appends such labels to the index, the model "
     "follows it (PEval.C19.confusion_total) and the oracle judges these cases like any other (no exception, matrix sums to the paired rows); every other flavour uses "
     "the config's labels for pass/fail",
-    "StatusRate.rate returns float('inf') for a status that never occurred for a ground truth (count 0, total > 0): by the property text not a C19 clause (the [0,1] "
-    "clause is about analyze()'s ratios); modelled as the code does it (PEval.C19.status_rates_unit), not judged (histogram key observed:status-rate-inf); the oracle's "
-    "rate clause is 'rate = #tally entries of the status / #tally entries', the tallies themselves being judged against the pass/fail lists (F11)",
+    "StatusRate.rate / get_status_rates / get_scene_rates are observed, not judged (by the property text not C19 clauses: the [0,1] clause is about analyze()'s ratios): "
+    "the model computes them as the code does (PEval.C19.status_rates_unit), the correspondence compares the defined rates (count > 0) as a mapping status -> rate; "
+    "float('inf') for a status that never occurred / an empty list is left open (histogram key observed:status-rate-inf); the tallies themselves are judged against "
+    "the pass/fail lists (F11)",
+    "order and numbering of the row pairs, order of the ratio / confusion-matrix index, of status records and their frame lists, exception classes, the `std` and `min` "
+    "summaries and inverted distance ranges are not part of the property: not judged, compared canonically or not at all",
+    "the `area` of a row pair is judged against the analyzer's own rectangles (upper_rights / bottom_lefts, closed, 1e-6 slack): some row of the pair lies in it; grid "
+    "lines and which row decides are left open",
     "add_frame is exercised through add() (a direct call raises KeyError because add() creates the transforms entry)",
     "analyze() on an empty table with keyword selections is not exercised",
     "get_num_*(df=<empty selection of a non-empty table>) raises KeyError in the unchanged library; analyze() never calls them there (it returns "
@@ -277,17 +290,24 @@ def _uid(o):
 
 
 def _frame_lists(fr):
-    """canonical pass/fail lists of a real frame result (+ what the model of PassFailResult needs)"""
-    from perception_eval.common.threshold import get_label_threshold
-    from perception_eval.evaluation.matching import MatchingMode
-
+    """canonical pass/fail lists of a real frame result (+ what the model of PassFailResult needs).
+    The lists, the critical ground truths and the evaluated estimates are public attributes the property is stated over; the
+    per-result verdict `results` (get_label_threshold / is_result_correct) only feeds the model's `passfail` op: when those helpers are
+    absent or raise, that observation is dropped for the run (`results` = None, histogram key unobservable:passfail-results)."""
     pf = fr.pass_fail_result
-    cfgp = pf.frame_pass_fail_config
-    results = []
-    for r in fr.object_results:
-        lab = r.ground_truth_object.semantic_label if r.ground_truth_object is not None else r.estimated_object.semantic_label
-        thr = get_label_threshold(lab, cfgp.target_labels, cfgp.matching_threshold_list)
-        results.append([r.estimated_object.uuid, _uid(r.ground_truth_object), bool(r.is_result_correct(MatchingMode.PLANEDISTANCE, thr))])
+    results = None
+    try:
+        from perception_eval.common.threshold import get_label_threshold
+        from perception_eval.evaluation.matching import MatchingMode
+
+        cfgp = pf.frame_pass_fail_config
+        results = []
+        for r in fr.object_results:
+            lab = r.ground_truth_object.semantic_label if r.ground_truth_object is not None else r.estimated_object.semantic_label
+            thr = get_label_threshold(lab, cfgp.target_labels, cfgp.matching_threshold_list)
+            results.append([r.estimated_object.uuid, _uid(r.ground_truth_object), bool(r.is_result_correct(MatchingMode.PLANEDISTANCE, thr))])
+    except Exception:  # noqa: BLE001 - an auxiliary observation, never a verdict
+        results = None
     return {
         "n": int(fr.frame_name),
         "tp": [[r.estimated_object.uuid, _uid(r.ground_truth_object)] for r in pf.tp_object_results],
@@ -295,6 +315,7 @@ def _frame_lists(fr):
         "tn": [o.uuid for o in pf.tn_objects],
         "fn": [o.uuid for o in pf.fn_objects],
         "critical": [o.uuid for o in fr.frame_ground_truth.objects],
+        "n_results": len(fr.object_results),
         "results": results,
     }
 
@@ -320,16 +341,49 @@ def _cell(row):
             "frame_id": row["frame_id"], "dist": _f(row["distance"])}
 
 
+def _ilab(i):
+    """a level-0 index label as a JSON value"""
+    try:
+        return int(i)
+    except (TypeError, ValueError):
+        return str(i)
+
+
 def _rows(df):
-    rows = []
+    """the row pairs of a table: [label, "ground_truth", cell | None, label, "estimation", cell | None] per level-0 index label, in
+    order of first appearance.  The pairing is read from the index itself (level 0 = the pair, level 1 = the side: the public layout
+    `get_ground_truth` / `get_estimation` select by); neither a numbering from 0 nor the order of the two sides is assumed."""
     recs = df.to_dict("records")
     idx = list(df.index)
-    if len(idx) % 2:
-        return {"odd": len(idx)}
-    for k in range(0, len(idx), 2):
-        (i0, s0), (i1, s1) = idx[k], idx[k + 1]
-        rows.append([int(i0), s0, _cell(recs[k]), int(i1), s1, _cell(recs[k + 1])])
+    groups, order = {}, []
+    for (i, side), rec in zip(idx, recs):
+        i = _ilab(i)
+        if i not in groups:
+            groups[i] = {}
+            order.append(i)
+        if side in groups[i] or side not in ("ground_truth", "estimation"):
+            return {"odd": len(idx), "label": i, "side": str(side)}
+        groups[i][side] = _cell(rec)
+    rows = []
+    for i in order:
+        g = groups[i]
+        if len(g) != 2:
+            return {"odd": len(idx), "label": i, "sides": sorted(g)}
+        rows.append([i, "ground_truth", g["ground_truth"], i, "estimation", g["estimation"]])
     return rows
+
+
+def _pair_key(gc, ec):
+    """what a row pair IS, independent of its place and number in the table: (scene, frame, status, uuid of the ground-truth row | None,
+    uuid of the estimation row | None).  Estimates and ground truths have distinct uuids within a frame, so keys are unique."""
+    c = ec if ec is not None else gc
+    if c is None:
+        return None
+    return (c["scene"], c["frame"], c["st"], None if gc is None else gc["u"], None if ec is None else ec["u"])
+
+
+def _row_keys(rows):
+    return [_pair_key(r[2], r[5]) for r in rows]
 
 
 def _sel_kwargs(sel):
@@ -371,16 +425,16 @@ def _select(an, sel):
 
 
 def _sel_table(an, sel, df, table_empty):
-    """what was selected: the pair indices (in order), whether pairs are whole, counts on the selection"""
-    idx = list(df.index)
-    whole = len(idx) % 2 == 0
-    index = []
-    for k in range(0, len(idx) - 1, 2):
-        (i0, s0), (i1, s1) = idx[k], idx[k + 1]
-        if i0 != i1 or s0 != "ground_truth" or s1 != "estimation":
-            whole = False
-        index.append(int(i0))
-    d = {"index": index, "whole_pairs": whole}
+    """what was selected: the row pairs (their index labels and their identities), whether pairs are whole, counts on the selection"""
+    rows = _rows(df)
+    whole = not isinstance(rows, dict)
+    if whole:
+        index = [r[0] for r in rows]
+        keys = [list(k) if k is not None else None for k in _row_keys(rows)]
+    else:
+        index = sorted({_ilab(i) for i, _ in df.index}, key=str)
+        keys = None
+    d = {"index": index, "keys": keys, "whole_pairs": whole}
     if len(df) > 0 and whole:
         # (the num_* getters raise KeyError on an EMPTY selection; analyze() never calls them there)
         num = {}
@@ -410,6 +464,26 @@ def _sel_table(an, sel, df, table_empty):
     return d
 
 
+SUMMARY_KEYS = ("average", "rms", "std", "max", "min")
+
+
+def _summary_of(err_df, l, c):
+    """one row of summarize_error as a dict; a summary the library does not report reads None (the property states mean / RMS / max)"""
+    try:
+        r = err_df.loc[(l, c)]
+    except KeyError:
+        return "absent"
+    d = {}
+    for k in SUMMARY_KEYS:
+        try:
+            d[k] = _f(r[k])
+        except (KeyError, IndexError):
+            d[k] = None
+    if d["average"] is None and d["rms"] is None and d["max"] is None:
+        return None  # NaN: no paired row
+    return d
+
+
 def _analysis(an, sel, labels):
     """one selection through the real analyzer; 'mode' analyze = analyze(), parts / filter = the public pieces"""
     import numpy as np
@@ -434,25 +508,27 @@ def _analysis(an, sel, labels):
             cm_df = an.get_confusion_matrix(df=df)
     except Exception as e:
         return {"err": type(e).__name__, "sel": seld}
-    ratio = {str(l): [float(ratio_df.loc[l, c]) for c in ("TP", "FP", "TN", "FN")] for l in ratio_df.index}
+    # reading the returned frames (harness code: a failure here is not the property's)
+    ratio = {str(l): [_f(ratio_df.loc[l, c]) if c in ratio_df.columns else None for c in ("TP", "FP", "TN", "FN")] for l in ratio_df.index}
     error = {}
     for l in ["ALL"] + labels:
-        error[l] = {}
-        for c in COLS:
-            r = err_df.loc[(l, c)]
-            error[l][c] = None if math.isnan(float(r["average"])) else {k: float(r[k]) for k in ("average", "rms", "std", "max", "min")}
+        error[l] = {c: _summary_of(err_df, l, c) for c in COLS}
     cm = None
     cm_labels = None
     if cm_df is not None:
         cm = [[int(v) for v in row] for row in np.array(cm_df)]
         cm_labels = [str(x) for x in cm_df.index]
+        cm_cols = [str(x) for x in cm_df.columns]
+        if cm_cols != cm_labels:  # columns in another order than the rows: bring them into the order of the index
+            if sorted(cm_cols) == sorted(cm_labels):
+                pos = [cm_cols.index(x) for x in cm_labels]
+                cm = [[row[j] for j in pos] for row in cm]
+            else:
+                cm_labels = {"rows": cm_labels, "columns": cm_cols}
     # the selected table, for the oracle (number of paired rows)
-    recs = df.to_dict("records")
-    paired = 0
-    for k in range(0, len(recs) - 1, 2):
-        if _cell(recs[k]) is not None and _cell(recs[k + 1]) is not None:
-            paired += 1
-    return {"ratio": ratio, "error": error, "cm": cm, "cm_labels": cm_labels, "paired_rows": paired, "n_rows": len(recs), "sel": seld}
+    rows = _rows(df)
+    paired = None if isinstance(rows, dict) else sum(1 for r in rows if r[2] is not None and r[5] is not None)
+    return {"ratio": ratio, "error": error, "cm": cm, "cm_labels": cm_labels, "paired_rows": paired, "n_rows": len(df), "sel": seld}
 
 
 def _status(frames):
@@ -536,23 +612,29 @@ def _run_rows(case):
     try:
         an = PerceptionAnalyzer3D(cfg)
         an.add([frame])
-        rows = _rows(an.df)
+        df = an.df
+    except AttributeError as e:
+        if "SimpleNamespace" in str(e):
+            # the frame is a stub exposing only what add_frame reads today; a library that reads one more attribute of a frame
+            # result cannot be observed through it: no verdict (histogram key unobservable:rows-stub)
+            return {"unobservable": "rows-stub"}
+        return {"err": type(e).__name__, "stage": "add"}
     except Exception as e:
         return {"err": type(e).__name__, "stage": "add"}
-    return {"rows": rows}
+    return {"rows": _rows(df)}
 
 
 def run_impl(case):
+    """Only the calls the property is about produce `err` entries (the analyzer's constructor, add, df, num_*, the selection / analysis
+    entry points, get_object_status); building the configuration, running the manager (other properties' ground) and reading the frames'
+    public lists is set-up and propagates (run_check: infrastructure error, or 'the real code raised unexpectedly')."""
     if case.get("kind") == "area":
         return _run_area(case)
     if case.get("kind") == "rows":
         return _run_rows(case)
     from perception_eval.tool import PerceptionAnalyzer3D
 
-    try:
-        cfg, scenes = _evaluate(case)
-    except Exception as e:
-        return {"err": type(e).__name__, "stage": "manager"}
+    cfg, scenes = _evaluate(case)
     out = {"frames": [[_frame_lists(fr) for fr in sc] for sc in scenes]}
     try:
         an = PerceptionAnalyzer3D(cfg, num_area_division=case["division"])
@@ -560,17 +642,18 @@ def run_impl(case):
         out["err"] = type(e).__name__
         out["stage"] = "analyzer"
         return out
-    out["areas"] = {"ur": [[float(a), float(b)] for a, b in an.upper_rights], "bl": [[float(a), float(b)] for a, b in an.bottom_lefts]}
     try:
         for sc in scenes:
             an.add(sc)
+        df = an.df
     except Exception as e:
         out["err"] = type(e).__name__
         out["stage"] = "add"
         return out
+    out["areas"] = {"ur": [[float(a), float(b)] for a, b in an.upper_rights], "bl": [[float(a), float(b)] for a, b in an.bottom_lefts]}
     out["num_scene"] = an.num_scene
     out["num_frame"] = an.num_frame
-    out["rows"] = _rows(an.df)
+    out["rows"] = _rows(df)
     num = {}
     for k, attr in (("gt", "num_ground_truth"), ("est", "num_estimation"), ("tp", "num_tp"), ("fp", "num_fp"), ("tn", "num_tn"), ("fn", "num_fn")):
         try:
@@ -583,6 +666,7 @@ def run_impl(case):
         out["status"] = {"scenes": [_status(sc) for sc in scenes], "all": _status([f for sc in scenes for f in sc])}
     except Exception as e:
         out["status"] = {"err": type(e).__name__}
+    # observed, not judged (GroundTruthStatus.get_status_rates / StatusRate.rate / get_scene_rates are not clauses of C19)
     try:
         from perception_eval.common.status import get_scene_rates
 
@@ -596,10 +680,12 @@ def run_impl(case):
 # ----------------------------------------------------------------------------- model side
 
 _EMPTY_RAISES = None
+NUM_ATTRS = (("gt", "num_ground_truth"), ("est", "num_estimation"), ("tp", "num_tp"), ("fp", "num_fp"), ("tn", "num_tn"), ("fn", "num_fn"))
 
 
 def _empty_raises():
-    """does a num_* property of the analyzer under test raise on the initial empty table (finding N2)?"""
+    """does a num_* property of the analyzer under test raise on the initial empty table (finding N2)?  All six getters are probed; the
+    model is told 'raises' when any of them does (a partial repair is accepted per getter in `compare`)."""
     global _EMPTY_RAISES
     if _EMPTY_RAISES is None:
         from perception_eval.tool import PerceptionAnalyzer3D
@@ -608,10 +694,13 @@ def _empty_raises():
                 "range": {"kind": "xy", "max_x": 100.0, "max_y": 100.0}}
         an = PerceptionAnalyzer3D(_config(case))
         an.add([])
-        try:
-            _EMPTY_RAISES = not (int(an.num_tp) == 0)
-        except Exception:
-            _EMPTY_RAISES = True
+        flags = []
+        for _k, attr in NUM_ATTRS:
+            try:
+                flags.append(not (int(getattr(an, attr)) == 0))
+            except Exception:  # noqa: BLE001 - the probe asks exactly this
+                flags.append(True)
+        _EMPTY_RAISES = any(flags)
     return _EMPTY_RAISES
 
 
@@ -666,36 +755,69 @@ def _msel(sel):
             "distance": None if sel.get("distance") is None else [core.q(sel["distance"][0]), core.q(sel["distance"][1])]}
 
 
+def _is_f11(objs, l, g):
+    """the inputs of finding F11: an FP result carries the ORDINARY ground truth g that the same frame also lists as FN"""
+    return g is not None and objs[g]["l"] != FPL and g in l["fn"]
+
+
+def _gt_dropped_pairs(case, out):
+    """probe of the real table for the table-layout repair of F11 ("which row owns the ground truth", known_findings.json): the FP results of
+    the signature's inputs whose row pair holds the estimate only -> {(scene, frame, estimate uuid)}"""
+    rows = out.get("rows")
+    if not isinstance(rows, list):
+        return set()
+    have = set(k for k in _row_keys(rows) if k is not None)
+    dropped = set()
+    for si, (sc_case, sc_out) in enumerate(zip(case["scenes"], out["frames"])):
+        for fr, l in zip(sc_case, sc_out):
+            objs = _objs_of(fr)
+            for e, g in l["fp"]:
+                if _is_f11(objs, l, g) and (si, l["n"], "FP", g, e) not in have and (si, l["n"], "FP", None, e) in have:
+                    dropped.add((si, l["n"], e))
+    return dropped
+
+
+def _passfail_observable(out):
+    return all(l.get("results") is not None for sc in out["frames"] for l in sc)
+
+
 def model_requests(case, out):
     if case.get("kind") in ("area", "rows"):
         return []  # these inputs are judged by the oracle; their tie to the model is the table theorem
     if "frames" not in out or "rows" not in out:
         return []
     mx, my = _area_max(case)
+    # F11 probed on the real table: where the (repaired) table keeps only the estimate in the FP row pair of an ordinary ground truth that
+    # the frame also lists as FN, the model is handed that pair without its ground truth and follows the real layout
+    dropped = _gt_dropped_pairs(case, out)
+    with_pf = _passfail_observable(out)
     scenes = []
     pf_reqs = []
-    for sc_case, sc_out in zip(case["scenes"], out["frames"]):
+    for si, (sc_case, sc_out) in enumerate(zip(case["scenes"], out["frames"])):
         frames = []
         for fr, lists in zip(sc_case, sc_out):
             objs = _objs_of(fr)
             mo = lambda u: None if u is None else _mobj(objs[u])  # noqa: E731
-            frames.append({"n": lists["n"], "tp": [[mo(e), mo(g)] for e, g in lists["tp"]], "fp": [[mo(e), mo(g)] for e, g in lists["fp"]],
+            fp = [[mo(e), None if (si, lists["n"], e) in dropped else mo(g)] for e, g in lists["fp"]]
+            frames.append({"n": lists["n"], "tp": [[mo(e), mo(g)] for e, g in lists["tp"]], "fp": fp,
                            "tn": [mo(u) for u in lists["tn"]], "fn": [mo(u) for u in lists["fn"]], "critical": [mo(u) for u in lists["critical"]]})
-            pf_reqs.append({"op": "passfail", "n": lists["n"], "critical": [mo(u) for u in lists["critical"]],
-                            "results": [{"est": mo(e), "gt": mo(g), "correct": c} for e, g, c in lists["results"]]})
+            if with_pf:
+                pf_reqs.append({"op": "passfail", "n": lists["n"], "critical": [mo(u) for u in lists["critical"]],
+                                "results": [{"est": mo(e), "gt": mo(g), "correct": c} for e, g, c in lists["results"]]})
         scenes.append(frames)
     req = {"op": "analyze", "empty_raises": _empty_raises(), "division": case["division"], "max_x": core.q(mx), "max_y": core.q(my), "labels": case["labels"],
            "scenes": scenes, "sels": [_msel(s) for s in case["sels"]]}
     # the same pass/fail lists with the objects AS GIVEN (base_link or map frame) and the frames' ego poses: the model transforms
     raw_scenes = []
-    for sc_case, sc_out in zip(case["scenes"], out["frames"]):
+    for si, (sc_case, sc_out) in enumerate(zip(case["scenes"], out["frames"])):
         frames = []
         for fr, lists in zip(sc_case, sc_out):
             objs = _objs_of(fr)
             ego = fr.get("ego") or [0.0, 0.0, 0]
             mr = lambda u: None if u is None else _mraw(objs[u], case["frame_id"], ego)  # noqa: E731
             frames.append({"ego": _mpose(case["frame_id"], ego), "n": lists["n"], "tp": [[mr(e), mr(g)] for e, g in lists["tp"]],
-                           "fp": [[mr(e), mr(g)] for e, g in lists["fp"]], "tn": [mr(u) for u in lists["tn"]], "fn": [mr(u) for u in lists["fn"]],
+                           "fp": [[mr(e), None if (si, lists["n"], e) in dropped else mr(g)] for e, g in lists["fp"]],
+                           "tn": [mr(u) for u in lists["tn"]], "fn": [mr(u) for u in lists["fn"]],
                            "critical": [mr(u) for u in lists["critical"]]})
         raw_scenes.append(frames)
     raw_req = {"op": "raw_rows", "division": case["division"], "max_x": core.q(mx), "max_y": core.q(my), "scenes": raw_scenes}
@@ -738,12 +860,48 @@ def _on_boundary(case):
     return False
 
 
+def _num_same(a, b):
+    """two counts agree: same number, or both raised (the property names no exception class)"""
+    if isinstance(a, dict) or isinstance(b, dict):
+        return isinstance(a, dict) and isinstance(b, dict)
+    return a == b
+
+
+def _rate_close(v, w):
+    return v is not None and core.close(v, core.unq(w))
+
+
+def _cm_map(cm, labels):
+    """a confusion matrix as a mapping (row label, column label) -> count, zero cells dropped: the text fixes no order of the labels"""
+    if cm is None:
+        return None
+    if isinstance(labels, dict) or labels is None or len(labels) != len(cm):
+        return {"shape": (len(cm), str(labels))}
+    return {(labels[i], labels[j]): v for i, row in enumerate(cm) for j, v in enumerate(row) if v}
+
+
+def _srt(l):
+    return sorted(l, key=lambda x: json.dumps(x, sort_keys=True, default=str))
+
+
 def compare(case, out, resps):
+    """Correspondence real code <-> model on what the property observes.  Canonical on both sides where the text leaves a choice open (order and
+    numbering of the row pairs, order of label indices, of status records, of pass/fail lists); exception kinds as 'raised vs returned';
+    inverted distance ranges (outside the quantifier) are not compared.  On exactly the inputs of the listed findings the property-conform
+    outcome is accepted next to the modelled (defective) one, so that a repair of F11 / N1 / N2 in the library is not a disagreement:
+      F11 - table layout: probed in `model_requests` (the model is handed the real layout); ground-truth counts: the model's or 'every ground
+            truth once'; rates whose denominator is such a count: the model's or any value in [0,1]; FN list of PassFailResult: with or without
+            the ground truths an FP result carries; tallies of such ground truths: the model's or what the oracle's clause admits;
+      N1  - per-label TP (and FP = false discovery) rate of a label met in a cross-label TP pair of the selection: the model's or any value in [0,1];
+      N2  - num_* on a table built from zero items: raised or 0, per getter."""
     if not resps:
         return None
     r = resps[0]
+    if out.get("unexpected") or "unobservable" in out:
+        return "skip"
     if "err" in out or "err" in r:
-        return None if out.get("err") == r.get("err") and out.get("stage") in (None, "analyzer") else f"impl {out.get('err')}@{out.get('stage')} != model {r.get('err')}"
+        # raised vs returned (the property names no exception class); only the constructor's rejection of a bad division is modelled
+        return None if ("err" in out) == ("err" in r) and out.get("stage") in (None, "analyzer") else f"impl {out.get('err')}@{out.get('stage')} != model {r.get('err')}"
     if _on_boundary(case):
         return "skip"
     # areas
@@ -753,151 +911,267 @@ def compare(case, out, resps):
             return f"area points {k}: impl {a} != model {b}"
     if r.get("area_error"):
         return "model: get_area_idx matched more than one area"
-    if (out["num_scene"], out["num_frame"]) != (r["num_scene"], r["num_frame"]):
-        return f"num_scene/num_frame impl {(out['num_scene'], out['num_frame'])} != model {(r['num_scene'], r['num_frame'])}"
-    # rows
+    # (num_scene / num_frame are not observables of the property - "PerceptionAnalyzer3D.df and num_* properties" are the counts of rows; the
+    # scene / frame numbering is compared through the rows' columns)
+    # rows: matched by identity (scene, frame, status, uuids) - neither order nor numbering of the pairs is part of the property
     rows = out["rows"]
     if isinstance(rows, dict):
-        return f"odd number of rows {rows}"
+        return f"the table does not consist of row pairs: {rows}"
     if len(rows) != len(r["rows"]):
         return f"table has {len(rows)} row pairs, model {len(r['rows'])}"
-    for a, b in zip(rows, r["rows"]):
-        if a[0] != b[0] or a[3] != b[0] or a[1] != "ground_truth" or a[4] != "estimation":
-            return f"row index/side impl {a[:2]},{a[3:5]} != model index {b[0]}"
+    ikeys = _row_keys(rows)
+    mkeys = [_pair_key(b[1], b[2]) for b in r["rows"]]
+    if None in ikeys or len(set(ikeys)) != len(ikeys):
+        return f"row pairs of the table are not distinct items: {ikeys}"
+    ipos = {k: j for j, k in enumerate(ikeys)}
+    mkey_of = {b[0]: mk for b, mk in zip(r["rows"], mkeys)}  # the model's own numbering of its row pairs
+    if set(ikeys) != set(mkeys):
+        miss = [k for k in mkeys if k not in ipos]
+        extra = [k for k in ikeys if k not in set(mkeys)]
+        return f"row pairs (scene, frame, status, ground truth, estimate): model has {miss[:3]}, impl has {extra[:3]}"
+
+    def cells(a, b, who):
         for side, ca, cb in (("ground_truth", a[2], b[1]), ("estimation", a[5], b[2])):
             if (ca is None) != (cb is None):
-                return f"row {a[0]} {side}: impl {'NaN' if ca is None else ca['st']} vs model {'NaN' if cb is None else cb['st']}"
+                return f"row pair {a[0]} {side}: impl {'NaN' if ca is None else ca['st']} vs {who} {'NaN' if cb is None else cb['st']}"
             if ca is None:
                 continue
             for k in ("st", "u", "l", "area", "frame", "scene"):
                 if ca[k] != cb[k]:
-                    return f"row {a[0]} {side} column {k}: impl {ca[k]!r} != model {cb[k]!r}"
-            if not core.close(ca["x"], core.unq(cb["x"])) or not core.close(ca["y"], core.unq(cb["y"])):
-                return f"row {a[0]} {side} position: impl ({ca['x']},{ca['y']}) != model ({float(core.unq(cb['x']))},{float(core.unq(cb['y']))})"
-            if not _angle_close(ca["yaw"], float(core.unq(cb["yaw"])) * PI):
-                return f"row {a[0]} {side} yaw: impl {ca['yaw']} != model {float(core.unq(cb['yaw'])) * PI}"
+                    return f"row pair {a[0]} {side} column {k}: impl {ca[k]!r} != {who} {cb[k]!r}"
+            if ca["x"] is None or ca["y"] is None or not core.close(ca["x"], core.unq(cb["x"])) or not core.close(ca["y"], core.unq(cb["y"])):
+                return f"row pair {a[0]} {side} ego-frame position: impl ({ca['x']},{ca['y']}) != {who} ({float(core.unq(cb['x']))},{float(core.unq(cb['y']))})"
+            if ca["yaw"] is None or not _angle_close(ca["yaw"], float(core.unq(cb["yaw"])) * PI):
+                return f"row pair {a[0]} {side} ego-frame yaw: impl {ca['yaw']} != {who} {float(core.unq(cb['yaw'])) * PI}"
+        return None
+
+    for b, mk in zip(r["rows"], mkeys):
+        d = cells(rows[ipos[mk]], b, "model")
+        if d:
+            return d
+    # what the findings' signatures single out in this case
+    items0 = _items(case, out)
+    items_l, _row_of, _msgs = _match_rows(items0, rows)
+    if items_l is None:
+        return "the table is not a tabulation of the pass/fail lists: " + "; ".join(_msgs[:2])
+    n_items = len(items0)
+    keypos = {_item_key(it): k for k, it in enumerate(items_l)}
+    has_f11 = any(it[5] for it in items0)
+    frames = [l for sc in out["frames"] for l in sc]
+    critical = sum(len(l["critical"]) for l in frames)
+
+    def gt_alt(v, rows_gt):
+        """the property-conform ground-truth count over ground-truth rows (scene, frame, uuid): every ground truth once"""
+        return has_f11 and not isinstance(v, dict) and v == len(set(rows_gt))
+
     # counts
     for k in ("gt", "est", "tp", "fp", "tn", "fn"):
-        if out["num"][k] != r["num"][k]:
-            return f"num_{k}: impl {out['num'][k]} != model {r['num'][k]}"
+        v, w = out["num"][k], r["num"][k]
+        if _num_same(v, w):
+            continue
+        if n_items == 0 and (isinstance(v, dict) or v == 0):
+            continue  # N2's inputs: raised (modelled) or 0 (conform), per getter
+        if k == "gt" and has_f11 and v == critical:
+            continue  # F11's inputs: the conform count
+        return f"num_{k}: impl {v} != model {w}"
     # analyses
     yaw_pi = _yaw_pi_pairs(case, out)
+    msels = r.get("selections") or [None] * len(out["analyses"])
     for i, (a, b) in enumerate(zip(out["analyses"], r["analyses"])):
-        tag = f"selection {i} {case['sels'][i]}"
+        sel = case["sels"][i]
+        tag = f"selection {i} {sel}"
+        if _inverted(sel):
+            continue  # outside the quantifier
         if "err" in a or "err" in b:
-            if a.get("err") != b.get("err"):
+            if ("err" in a) != ("err" in b):
                 return f"{tag}: impl {a.get('err', 'ok')} != model {b.get('err', 'ok')}"
             continue
         # the selected sub-table itself: which pairs, counts over it, row-wise keyword counts
-        ms = (r.get("selections") or [None] * len(out["analyses"]))[i]
+        ms = msels[i]
         sa = a.get("sel")
+        K = None
         if ms is not None and sa is not None and "err" not in ms:
             if not sa["whole_pairs"]:
                 return f"{tag}: the selected table splits a row pair (index {sa['index']})"
-            if sa["index"] != ms["index"]:
-                return f"{tag}: selected row pairs impl {sa['index']} != model {ms['index']}"
-            if "num" in sa and sa["num"] != ms["num"]:
-                return f"{tag}: counts over the selection impl {sa['num']} != model {ms['num']}"
-            if "paired" in sa and sa["paired"] != ms["paired"]:
+            got = [tuple(k) if k is not None else None for k in sa["keys"]]
+            want = [mkey_of[j] for j in ms["index"]]
+            if len(set(got)) != len(got) or set(got) != set(want):
+                return f"{tag}: selected row pairs impl {_srt(got)} != model {_srt(want)}"
+            K = sorted(keypos[k] for k in got)
+            gt_rows_K = [(items_l[k][3], items_l[k][4], items_l[k][1]["u"]) for k in K if items_l[k][1] is not None]
+            if "num" in sa:
+                for key in ("gt", "est", "tp", "fp", "tn", "fn"):
+                    v, w = sa["num"].get(key), ms["num"][key]
+                    if not _num_same(v, w) and not (key == "gt" and gt_alt(v, gt_rows_K)):
+                        return f"{tag}: counts over the selection impl {sa['num']} != model {ms['num']}"
+            if "paired" in sa and not _num_same(sa["paired"], ms["paired"]):
                 return f"{tag}: paired rows of the selection impl {sa['paired']} != model {ms['paired']}"
-            if "rowwise" in sa and sa["rowwise"] != ms["rowwise"]:
-                return f"{tag}: row-wise keyword counts impl {sa['rowwise']} != model {ms['rowwise']}"
+            if "rowwise" in sa:
+                for key in ("gt", "est", "tp", "fp", "tn", "fn"):
+                    v, w = sa["rowwise"].get(key), ms["rowwise"][key]
+                    if not _num_same(v, w) and not (key == "gt" and gt_alt(v, _ref_rowwise(case, out, sel, items_l, _row_of)[1])):
+                        return f"{tag}: row-wise keyword counts impl {sa['rowwise']} != model {ms['rowwise']}"
         if a.get("none") or b.get("none"):
             if bool(a.get("none")) != bool(b.get("none")):
                 return f"{tag}: impl none={a.get('none')} model none={b.get('none')}"
             continue
+        # rates, as a mapping label -> row (the order of the index is not part of the property)
         mr = {x[0]: x[1:] for x in b["ratio"]}
-        if list(a["ratio"]) != [x[0] for x in b["ratio"]]:
-            return f"{tag}: ratio labels impl {list(a['ratio'])} != model {[x[0] for x in b['ratio']]}"
-        for l, vals in a["ratio"].items():
-            for name, v, w in zip(("TP", "FP", "TN", "FN"), vals, mr[l]):
-                if not core.close(v, core.unq(w)):
-                    return f"{tag}: rate {l}/{name} impl {v} != model {w}"
+        if not set(mr) <= set(a["ratio"]):
+            return f"{tag}: ratio labels impl {sorted(a['ratio'])} lack {sorted(set(mr) - set(a['ratio']))}"
+        n1_labels, f11_labels = set(), set()
+        if K is not None:
+            for k in K:
+                st, g, e = items_l[k][:3]
+                if st == "TP" and g is not None and g["l"] != e["l"]:
+                    n1_labels |= {g["l"], e["l"]}
+            dup = {x for x in gt_rows_K if gt_rows_K.count(x) > 1}
+            for k in K:
+                g = items_l[k][1]
+                if g is not None and (items_l[k][3], items_l[k][4], g["u"]) in dup:
+                    f11_labels |= {"ALL", g["l"]}
+        for l, ws in mr.items():
+            for name, v, w in zip(("TP", "FP", "TN", "FN"), a["ratio"][l], ws):
+                if _rate_close(v, w):
+                    continue
+                conform = v is not None and 0.0 <= v <= 1.0  # "rates lie in [0,1]"
+                if conform and ((l in n1_labels and name in ("TP", "FP")) or (l in f11_labels and name in ("TP", "TN", "FN"))):
+                    continue
+                return f"{tag}: rate {l}/{name} impl {v} != model {w}"
         me = {x[0]: {c: s for c, s in x[1]} for x in b["error"]}
         for l, cols in a["error"].items():
             for c, s in cols.items():
-                ms = me[l][c]
-                if (s is None) != (ms is None):
-                    return f"{tag}: error {l}/{c} impl {s} vs model {ms}"
+                ms_ = me[l][c]
+                if s == "absent" or (s is None) != (ms_ is None):
+                    return f"{tag}: error {l}/{c} impl {s} vs model {ms_}"
                 if s is None:
                     continue
                 k = PI if c == "yaw" else 1.0
-                ref = {"average": float(core.unq(ms["average"])) * k, "rms": math.sqrt(float(core.unq(ms["rms2"]))) * k,
-                       "std": math.sqrt(float(core.unq(ms["var"]))) * k, "max": float(core.unq(ms["max"])) * k,
-                       "min": float(core.unq(ms["min"])) * k}
-                for key in ("average", "rms", "std", "max", "min"):
-                    if c == "yaw" and yaw_pi and key in ("average", "std"):
+                ref = {"average": float(core.unq(ms_["average"])) * k, "rms": math.sqrt(float(core.unq(ms_["rms2"]))) * k,
+                       "std": math.sqrt(float(core.unq(ms_["var"]))) * k, "max": float(core.unq(ms_["max"])) * k,
+                       "min": float(core.unq(ms_["min"])) * k}
+                # "the stated mean/RMS/max summaries": `std` and `min` are reported by the library and computed by the model, but are not
+                # observables of the property - not compared
+                for key in ("average", "rms", "max"):
+                    if c == "yaw" and yaw_pi and key == "average":
                         continue
-                    tol = 1e-7 if key == "std" else 1e-9  # sqrt of a variance that is 0 up to rounding
-                    if not core.close(s[key], ref[key], abs_=tol):
+                    if s[key] is None or not core.close(s[key], ref[key], abs_=1e-9):
                         return f"{tag}: error {l}/{c}/{key} impl {s[key]} != model {ref[key]}"
-        if a["cm"] != b["cm"]:
-            return f"{tag}: confusion matrix impl {a['cm']} != model {b['cm']}"
-        msel = (r.get("selections") or [None] * len(out["analyses"]))[i]
-        if a["cm"] is not None and msel is not None and "cm_labels" in msel and a["cm_labels"] != msel["cm_labels"]:
-            return f"{tag}: index of the confusion matrix impl {a['cm_labels']} != model {msel['cm_labels']}"
-    # get_object_status
+        # confusion matrix as a mapping (row label, column label) -> count (after the C19-N3 fix extra labels are appended in order of first
+        # occurrence: the property does not fix that order)
+        mlabels = ms["cm_labels"] if (ms is not None and "cm_labels" in ms) else None
+        if mlabels is None or b["cm"] is None or a["cm"] is None:
+            if (a["cm"] is None) != (b["cm"] is None) or (mlabels is None and a["cm"] != b["cm"]):
+                return f"{tag}: confusion matrix impl {a['cm']} != model {b['cm']}"
+        elif _cm_map(a["cm"], a["cm_labels"]) != _cm_map(b["cm"], mlabels):
+            return f"{tag}: confusion matrix impl {a['cm']} over {a['cm_labels']} != model {b['cm']} over {mlabels}"
+    # get_object_status: records as a mapping uuid -> tallies (sorted frame numbers)
     if "err" in out["status"]:
         return f"get_object_status raised {out['status']['err']}"
-    if out["status"]["all"] != r["status"]["all"] or out["status"]["scenes"] != r["status"]["scenes"]:
-        return f"get_object_status impl {out['status']['all']} != model {r['status']['all']}"
-    # GroundTruthStatus.get_status_rates / StatusRate.rate / get_scene_rates
+    case_frames = [(si, fr, l) for si, (sc_case, sc_out) in enumerate(zip(case["scenes"], out["frames"])) for fr, l in zip(sc_case, sc_out)]
+    sgroups = [(f"scene {si}", [(fr, l) for s2, fr, l in case_frames if s2 == si], out["status"]["scenes"][si], r["status"]["scenes"][si]) for si in range(len(case["scenes"]))]
+    sgroups.append(("all scenes", [(fr, l) for _, fr, l in case_frames], out["status"]["all"], r["status"]["all"]))
+    tallies_as_model = True
+    for name, fl, got, mod in sgroups:
+        gd, md = {s["uuid"]: s for s in got}, {s["uuid"]: s for s in mod}
+        if len(gd) != len(got) or set(gd) != set(md):
+            return f"get_object_status {name}: records impl {sorted(s['uuid'] for s in got)} != model {sorted(md)}"
+        crit, given, extra = _tally_reference(fl)
+        for u in gd:
+            if all(sorted(gd[u][k]) == sorted(md[u][k]) for k in ("total", "tp", "fp", "tn", "fn")):
+                continue
+            tallies_as_model = False
+            if u in extra and _tally_verdict(gd[u], crit.get(u, []), given.get(u, {}), extra[u]) in ("once", "f11"):
+                continue  # F11's inputs: the listed double tally or "once per frame"
+            return f"get_object_status {name}: {u} impl {gd[u]} != model {md[u]}"
+    # GroundTruthStatus.get_status_rates / StatusRate.rate / get_scene_rates: OBSERVED (not clauses of C19).  Defined rates (count > 0) are
+    # compared with the model as a mapping status -> rate; what a never-occurred status or an empty list yields is left open.
     sr = out.get("status_rates")
-    if sr is not None and "status_rates" in r:
-        if "err" in sr:
-            return f"get_status_rates / get_scene_rates raised {sr['err']}"
-        groups = [(f"scene {i}", a, b, c) for i, (a, b, c) in enumerate(zip(sr["scenes"], r["status_rates"]["scenes"], r["scene_rates"]["scenes"]))]
-        groups.append(("all scenes", sr["all"], r["status_rates"]["all"], r["scene_rates"]["all"]))
-        for name, a, mrecs, mscene in groups:
-            if [x["uuid"] for x in a["records"]] != [x["uuid"] for x in mrecs]:
-                return f"{name}: status-rate records impl {[x['uuid'] for x in a['records']]} != model {[x['uuid'] for x in mrecs]}"
-            for x, y in zip(a["records"], mrecs):
-                if x["order"] != ["TP", "FP", "TN", "FN"]:
-                    return f"{name}: get_status_rates order {x['order']}"
-                for st, v, w in zip(x["order"], x["rates"], y["rates"]):
-                    if (v == "inf") != (w == "inf") or v == "nan" or (v != "inf" and not core.close(v, core.unq(w), abs_=1e-12)):
+    if sr is not None and "status_rates" in r and "err" not in sr:
+        groups = [(f"scene {i}", a, b, c, t) for i, (a, b, c, t) in enumerate(zip(sr["scenes"], r["status_rates"]["scenes"], r["scene_rates"]["scenes"], out["status"]["scenes"]))]
+        groups.append(("all scenes", sr["all"], r["status_rates"]["all"], r["scene_rates"]["all"], out["status"]["all"]))
+        for name, a, mrecs, mscene, tallies in groups:
+            md = {x["uuid"]: x for x in mrecs}
+            td = {t["uuid"]: t for t in tallies}
+            sums = {"total": 0, "TP": 0, "FP": 0, "TN": 0, "FN": 0}
+            for x in a["records"]:
+                t = td.get(x["uuid"])
+                if t is None or sorted(x["order"]) != ["FN", "FP", "TN", "TP"]:
+                    return f"{name}: status rates {x['order']} of {x['uuid']} do not belong to a status record"
+                sums["total"] += len(t["total"])
+                for st, v in zip(x["order"], x["rates"]):
+                    c = len(t[st.lower()])
+                    sums[st] += c
+                    if c == 0 or not t["total"]:
+                        continue  # never occurred: inf today, left open
+                    if tallies_as_model and x["uuid"] in md:
+                        w = md[x["uuid"]]["rates"][("TP", "FP", "TN", "FN").index(st)]
+                        ok = w != "inf" and v not in ("inf", "nan") and core.close(v, core.unq(w), abs_=1e-12)
+                    else:  # (tallies of a repaired F11: the model's definition count / total on the real tallies)
+                        w = c / len(t["total"])
+                        ok = v not in ("inf", "nan") and abs(v - w) <= 1e-12
+                    if not ok:
                         return f"{name}: status rate {x['uuid']}/{st} impl {v} != model {w}"
-            ms = ["inf"] * 4 if mscene == "inf" else mscene
-            for st, v, w in zip(("TP", "FP", "TN", "FN"), a["scene"], ms):
-                if (v == "inf") != (w == "inf") or v == "nan" or (v != "inf" and not core.close(v, core.unq(w), abs_=1e-12)):
-                    return f"{name}: scene rate {st} impl {v} != model {w}"
-        if (sr["empty"] == ["inf"] * 4) != (r["scene_rates"]["empty"] == "inf"):
-            return f"get_scene_rates([]) impl {sr['empty']} != model {r['scene_rates']['empty']}"
-    # PassFailResult.evaluate
+            if sums["total"] > 0:
+                for j, st in enumerate(("TP", "FP", "TN", "FN")):
+                    v = a["scene"][j]
+                    if tallies_as_model and mscene != "inf":
+                        ok = v not in ("inf", "nan") and core.close(v, core.unq(mscene[j]), abs_=1e-12)
+                    else:
+                        ok = v not in ("inf", "nan") and abs(v - sums[st] / sums["total"]) <= 1e-12
+                    if not ok:
+                        return f"{name}: scene rate {st} impl {v} != model {mscene if mscene == 'inf' else mscene[j]}"
+    # PassFailResult.evaluate: the four lists as multisets; F11's inputs: the FN list with or without the ground truths an FP result carries
     k = 1
-    for sc in out["frames"]:
-        for lists in sc:
+    if _passfail_observable(out):
+        for (si, fr, lists) in case_frames:
             b = resps[k]
             k += 1
+            objs = _objs_of(fr)
             for key in ("tp", "fp", "tn", "fn"):
-                if lists[key] != b[key]:
-                    return f"pass/fail list {key} of frame {lists['n']}: impl {lists[key]} != model {b[key]}"
+                if _srt(lists[key]) == _srt(b[key]):
+                    continue
+                if key == "fn":
+                    carried = [g for _, g in lists["fp"] if g is not None and objs[g]["l"] != FPL]
+                    if carried and _srt(lists["fn"]) == _srt([u for u in b["fn"] if u not in carried]):
+                        continue
+                return f"pass/fail list {key} of frame {lists['n']}: impl {lists[key]} != model {b[key]}"
     # the table from the objects AS GIVEN (the model applies transform((frame, BASE_LINK), ...) itself): x, y, yaw, area, distance
     if k < len(resps) and "rows" in resps[k]:
         rr = resps[k]
         if rr.get("area_error"):
             return "model (raw objects): get_area_idx matched more than one area"
-        if len(rr["rows"]) != len(rows):
-            return f"table has {len(rows)} row pairs, model (raw objects) {len(rr['rows'])}"
-        for a, b, d2 in zip(rows, rr["rows"], rr["dist2"]):
-            for side, ca, cb, dd in (("ground_truth", a[2], b[1], d2[0]), ("estimation", a[5], b[2], d2[1])):
-                if (ca is None) != (cb is None):
-                    return f"row {a[0]} {side}: impl {'NaN' if ca is None else ca['st']} vs model (raw objects) {'NaN' if cb is None else cb['st']}"
-                if ca is None:
-                    continue
-                for key in ("st", "u", "l", "area", "frame", "scene"):
-                    if ca[key] != cb[key]:
-                        return f"row {a[0]} {side} column {key}: impl {ca[key]!r} != model (raw objects) {cb[key]!r}"
-                if not core.close(ca["x"], core.unq(cb["x"])) or not core.close(ca["y"], core.unq(cb["y"])):
-                    return f"row {a[0]} {side} ego-frame position: impl ({ca['x']},{ca['y']}) != model transform of the given object ({float(core.unq(cb['x']))},{float(core.unq(cb['y']))})"
-                if not _angle_close(ca["yaw"], float(core.unq(cb["yaw"])) * PI):
-                    return f"row {a[0]} {side} ego-frame yaw: impl {ca['yaw']} != model transform of the given object {float(core.unq(cb['yaw'])) * PI}"
-                if ca.get("dist") is not None and not core.close(ca["dist"], math.sqrt(float(core.unq(dd)))):
-                    return f"row {a[0]} {side} distance: impl {ca['dist']} != model sqrt({dd})"
+        rkeys = [_pair_key(b[1], b[2]) for b in rr["rows"]]
+        if len(rr["rows"]) != len(rows) or set(rkeys) != set(ikeys):
+            return f"table has row pairs {_srt(ikeys)[:4]}.. ({len(rows)}), model (raw objects) {_srt(rkeys)[:4]}.. ({len(rr['rows'])})"
+        for b, d2, mk in zip(rr["rows"], rr["dist2"], rkeys):
+            a = rows[ipos[mk]]
+            d = cells(a, b, "model transform of the given object")
+            if d:
+                return d
+            for side, ca, dd in (("ground_truth", a[2], d2[0]), ("estimation", a[5], d2[1])):
+                if ca is not None and ca.get("dist") is not None and not core.close(ca["dist"], math.sqrt(float(core.unq(dd)))):
+                    return f"row pair {a[0]} {side} distance: impl {ca['dist']} != model sqrt({dd})"
     return None
 
 
 # ----------------------------------------------------------------------------- oracle (independent of the model)
+#
+# What the property text states, clause by clause (properties.jsonl, C19 `statement`), and what is deliberately NOT demanded:
+#   "one ground-truth/estimate row pair per TP, FP, TN and FN item"       -> a bijection between the items of the frames' pass/fail lists and the
+#        row pairs of the table, by identity (scene, frame, status, uuids).  The text fixes neither the ORDER of the pairs nor their NUMBERING,
+#        so neither is demanded.
+#   "with positions and yaw expressed in the ego frame"                     -> x, y within 1e-9, yaw within 1e-9 modulo a full turn.
+#   "per-status counts equal the sizes of the frames' pass/fail lists, the estimate count equals the number of evaluated estimates and the
+#    ground-truth count equals the number of critical ground-truth objects" -> num_* (F11: exact signature).
+#   "per-object status tallies likewise record each ground truth once per frame" -> per uuid the tallied frames are the frames in which it is
+#        critical, each entry under a status the lists give that ground truth in that frame (the text does not say under WHICH of them).
+#   "Reported errors are the ground-truth-minus-estimate differences of paired rows (yaw wrapped to [-pi, pi]) with the stated mean/RMS/max
+#    summaries"                                                             -> average, rms, max (not `min`, not `std`).
+#   "rates lie in [0,1]"                                                   -> exactly that (N1: exact signature).
+#   "the confusion matrix sums to the number of paired rows".
+#   GroundTruthStatus.get_status_rates / StatusRate.rate / get_scene_rates are observed and compared with the model, never judged.
+
 
 def _wrap(d):
     while d > PI:
@@ -912,25 +1186,64 @@ def _summ(errs):
     if n == 0:
         return None
     avg = math.fsum(errs) / n
-    return {"average": avg, "rms": math.sqrt(math.fsum(e * e for e in errs) / n),
-            "max": max(abs(e) for e in errs), "min": min(abs(e) for e in errs)}
+    return {"average": avg, "rms": math.sqrt(math.fsum(e * e for e in errs) / n), "max": max(abs(e) for e in errs)}
 
 
 def _items(case, out):
-    """the row pairs the frames' pass/fail lists ask for, in table order: (status, gt object | None, estimate | None, scene, frame)"""
+    """the row pairs the frames' pass/fail lists ask for, in a canonical order (TP, FP, TN, FN per frame - an order of the HARNESS, not demanded
+    of the table): (status, gt object | None, estimate | None, scene, frame, is this FP result an input of finding F11?)"""
     items = []
     for si, (sc_case, sc_out) in enumerate(zip(case["scenes"], out["frames"])):
         for fr, l in zip(sc_case, sc_out):
             objs = _objs_of(fr)
             for e, g in l["tp"]:
-                items.append(("TP", None if g is None else objs[g], objs[e], si, l["n"]))
+                items.append(("TP", None if g is None else objs[g], objs[e], si, l["n"], False))
             for e, g in l["fp"]:
-                items.append(("FP", None if g is None else objs[g], objs[e], si, l["n"]))
+                items.append(("FP", None if g is None else objs[g], objs[e], si, l["n"], _is_f11(objs, l, g)))
             for g in l["tn"]:
-                items.append(("TN", objs[g], None, si, l["n"]))
+                items.append(("TN", objs[g], None, si, l["n"], False))
             for g in l["fn"]:
-                items.append(("FN", objs[g], None, si, l["n"]))
+                items.append(("FN", objs[g], None, si, l["n"], False))
     return items
+
+
+def _item_key(it, with_gt=True):
+    st, g, e, si, n = it[:5]
+    return (si, n, st, None if (g is None or not with_gt) else g["u"], None if e is None else e["u"])
+
+
+def _match_rows(items, rows):
+    """the bijection items <-> row pairs by identity.  For an input of F11 (an FP result carrying an ordinary ground truth the frame also
+    lists as FN) the row pair may hold the estimate only: 'which row owns the ground truth' is the open design decision named in
+    known_findings.json; the ground truth then lives in its FN pair.  -> (effective items, row index per item, messages)"""
+    msgs = []
+    if isinstance(rows, dict):
+        return None, None, [f"the table does not consist of ground_truth/estimation row pairs: {rows}"]
+    keys = _row_keys(rows)
+    pos = {}
+    for j, k in enumerate(keys):
+        if k is None:
+            msgs.append(f"row pair {rows[j][0]} holds no object at all")
+        elif k in pos:
+            msgs.append(f"two row pairs for {k}")
+        else:
+            pos[k] = j
+    if len(rows) != len(items):
+        msgs.append(f"table has {len(rows)} row pairs for {len(items)} items")
+    eff, row_of = [], []
+    for it in items:
+        j = pos.get(_item_key(it))
+        if j is None and it[5] and _item_key(it, False) in pos:
+            j = pos[_item_key(it, False)]
+            it = (it[0], None, it[2], it[3], it[4], it[5])
+        if j is None:
+            msgs.append(f"no row pair for the {it[0]} item (scene {it[3]}, frame {it[4]}: ground truth {None if it[1] is None else it[1]['u']}, "
+                        f"estimate {None if it[2] is None else it[2]['u']})")
+        eff.append(it)
+        row_of.append(j)
+    if msgs:
+        return None, None, msgs
+    return eff, row_of, []
 
 
 def _vals(v):
@@ -955,8 +1268,9 @@ def _in_range(o, dist, map_frame):
     return (d0 <= 0 or d0 * d0 <= d2) and (d1 > 0 and d2 < d1 * d1)
 
 
-def _row_area(out, k):
-    row = out["rows"][k]
+def _row_area(out, j):
+    """the area column of row pair j of the real table (the estimate's, else the ground truth's)"""
+    row = out["rows"][j]
     c = row[5] if row[5] is not None else row[2]
     return None if c is None else c["area"]
 
@@ -978,16 +1292,16 @@ def _key_hit(key, vals, st, o, si, n, area):
     raise KeyError(key)
 
 
-def _ref_select(case, out, sel, items):
+def _ref_select(case, out, sel, items, row_of):
     """the documented pair predicate, evaluated on the generated scene: a pair is selected iff every given keyword is carried
-    by SOME row of the pair and (distance given) SOME row lies in [d0, d1) -> (indices surely selected, indices undecidable)"""
+    by SOME row of the pair and (distance given) SOME row lies in [d0, d1) -> (items surely selected, items undecidable)"""
     kw = _sel_kwargs(sel)
     dist = kw.pop("distance", None)
     map_frame = case["frame_id"] == "map"
     sure, unsure = [], []
-    for k, (st, g, e, si, n) in enumerate(items):
+    for k, (st, g, e, si, n, _f11) in enumerate(items):
         cells = [o for o in (g, e) if o is not None]
-        area = _row_area(out, k)
+        area = _row_area(out, row_of[k])
         if not all(any(_key_hit(key, _vals(v), st, o, si, n, area) for o in cells) for key, v in kw.items()):
             continue
         if dist is None:
@@ -1001,72 +1315,112 @@ def _ref_select(case, out, sel, items):
     return sure, unsure
 
 
-def _ref_rowwise(case, out, sel, items):
-    """get_num_*(**kwargs): the ROWS (not pairs) that carry every keyword"""
+def _ref_rowwise(case, out, sel, items, row_of):
+    """get_num_*(**kwargs): the ROWS (not pairs) that carry every keyword; `gt_rows` = the ground-truth rows among them as (scene, frame, uuid)"""
     kw = _sel_kwargs(sel)
     kw.pop("distance", None)
     cnt = {"est": 0, "tp": 0, "fp": 0, "tn": 0, "fn": 0}
-    for k, (st, g, e, si, n) in enumerate(items):
-        area = _row_area(out, k)
+    gt_rows = []
+    for k, (st, g, e, si, n, _f11) in enumerate(items):
+        area = _row_area(out, row_of[k])
         if e is not None and all(_key_hit(key, _vals(v), st, e, si, n, area) for key, v in kw.items()):
             cnt["est"] += 1
             if st in ("TP", "FP"):
                 cnt[st.lower()] += 1
-        if g is not None and st in ("TN", "FN") and all(_key_hit(key, _vals(v), st, g, si, n, area) for key, v in kw.items()):
-            cnt[st.lower()] += 1
-    return cnt
+        if g is not None and all(_key_hit(key, _vals(v), st, g, si, n, area) for key, v in kw.items()):
+            gt_rows.append((si, n, g["u"]))
+            if st in ("TN", "FN"):
+                cnt[st.lower()] += 1
+    return cnt, gt_rows
 
 
 def _describe(items, k):
-    st, g, e, si, n = items[k]
+    st, g, e, si, n = items[k][:5]
     f = lambda o: "-" if o is None else f"{o['u']}@{math.sqrt(_dist2(o)):.4f}m/{o['l']}"  # noqa: E731
     return f"pair {k} ({st}, scene {si}, frame {n}: ground truth {f(g)}, estimate {f(e)})"
+
+
+def _inverted(sel):
+    """a distance 'range' with min >= max is not a distance selection (the quantifier: "label/scene/area/distance selections"): no claim"""
+    d = sel.get("distance")
+    return d is not None and d[0] >= d[1]
+
+
+def _gt_count_fail(fails, tag_msg, v, rows_gt):
+    """ground-truth count v over ground-truth rows `rows_gt` [(scene, frame, uuid)]: conform = every ground truth once; exactly F11 = every
+    ground-truth ROW once, the surplus being ground truths tabulated in an FP pair and again as FN"""
+    distinct = len(set(rows_gt))
+    if v == distinct:
+        return
+    fails.append(("gt_count", v == len(rows_gt) and len(rows_gt) > distinct,
+                  f"{tag_msg} = {v}, distinct ground truths = {distinct} (ground-truth rows: {len(rows_gt)})"))
+
+
+def _area_claim(areas, objs, a):
+    """the `area` of a row pair against the analyzer's own published rectangles (upper_rights / bottom_lefts): a pair with area a has a row in
+    the CLOSED rectangle a; a pair without area does not have all its rows strictly inside rectangles (which row decides, and to whom a grid
+    line belongs, is left open; positions within 1e-6 of a grid line: no claim either way)"""
+    tol = 1e-6
+    ur, bl = areas["ur"], areas["bl"]
+
+    def inside(i, o, slack):
+        x, y = float(o["x"]), float(o["y"])
+        return bl[i][0] - slack <= x <= ur[i][0] + slack and ur[i][1] - slack <= y <= bl[i][1] + slack
+
+    where = ", ".join(f"{o['u']} at ({o['x']}, {o['y']})" for o in objs)
+    if a is not None:
+        if not (0 <= a < len(ur)):
+            return f"area {a} is not one of the {len(ur)} areas"
+        if not any(inside(a, o, tol) for o in objs):
+            return f"area {a} = [{bl[a][0]}, {ur[a][0]}] x [{ur[a][1]}, {bl[a][1]}] contains no row of the pair ({where}, ego frame)"
+        return None
+    if objs and all(any(inside(i, o, -tol) for i in range(len(ur))) for o in objs):
+        return f"no area although every row of the pair lies strictly inside an area ({where}, ego frame)"
+    return None
 
 
 def _check(case, out):
     """the property statement on the real outputs -> list of (tag, info, message)"""
     fails = []
+    if out.get("unexpected") or "unobservable" in out:
+        return []  # not an output of the calls under test (run_check reports an escaped exception itself)
     if "err" in out:
         return [("exception", None, f"{out.get('stage')} raised {out['err']}")]
     frames = [(si, fr, lists) for si, (sc_case, sc_out) in enumerate(zip(case["scenes"], out["frames"])) for fr, lists in zip(sc_case, sc_out)]
-    items = sum(len(l["tp"]) + len(l["fp"]) + len(l["tn"]) + len(l["fn"]) for _, _, l in frames)
-    # --- one row pair per TP/FP/TN/FN item, in ego-frame coordinates
+    items0 = _items(case, out)
+    items = len(items0)
+    map_frame = case["frame_id"] == "map"
+    # --- one row pair per TP/FP/TN/FN item ("one ground-truth/estimate row pair per TP, FP, TN and FN item"), in ego-frame coordinates
     rows = out["rows"]
-    if isinstance(rows, dict) or len(rows) != items:
-        fails.append(("layout", None, f"table has {rows if isinstance(rows, dict) else len(rows)} row pairs for {items} items"))
-    else:
-        k = 0
-        for si, fr, l in frames:
-            objs = _objs_of(fr)
-            exp = [("TP", g, e) for e, g in l["tp"]] + [("FP", g, e) for e, g in l["fp"]] + [("TN", g, None) for g in l["tn"]] + [("FN", g, None) for g in l["fn"]]
-            for st, g, e in exp:
-                row = rows[k]
-                if row[0] != k or row[3] != k or row[1] != "ground_truth" or row[4] != "estimation":
-                    fails.append(("layout", None, f"row pair {k}: index/side {row[:2]} {row[3:5]}"))
-                for side, u, cell in (("ground_truth", g, row[2]), ("estimation", e, row[5])):
-                    if (u is None) != (cell is None):
-                        fails.append(("layout", None, f"row {k} {side}: expected {'NaN row' if u is None else u}, got {cell}"))
-                    elif u is not None:
-                        o = objs[u]
-                        if cell["st"] != st or cell["u"] != u or cell["l"] != o["l"] or cell["frame"] != l["n"] or cell["scene"] != si:
-                            fails.append(("layout", None, f"row {k} {side}: expected {st} {u} {o['l']} frame {l['n']} scene {si}, got {cell}"))
-                        if not (core.close(cell["x"], o["x"]) and core.close(cell["y"], o["y"]) and _angle_close(cell["yaw"], _yaw(o["yaw"]))):
-                            fails.append(("ego", None, f"row {k} {side} {u}: ego-frame pose should be ({o['x']},{o['y']},{_yaw(_norm_k(o['yaw']))}), got ({cell['x']},{cell['y']},{cell['yaw']})"))
-                        if not (-PI - 1e-12 <= cell["yaw"] <= PI + 1e-12):
-                            fails.append(("yaw_range", None, f"row {k} {side} yaw {cell['yaw']} outside [-pi, pi]"))
-                k += 1
+    items_l, row_of, msgs = _match_rows(items0, rows)
+    for m in msgs[:4]:
+        fails.append(("layout", None, m))
+    layout_ok = items_l is not None
+    if layout_ok:
+        for k, (st, g, e, si, n, _f11) in enumerate(items_l):
+            row = rows[row_of[k]]
+            for side, o, cell in (("ground_truth", g, row[2]), ("estimation", e, row[5])):
+                if o is None:
+                    continue  # (the identity of the pair already says this side is the all-None row)
+                if cell["st"] != st or cell["u"] != o["u"] or cell["l"] != o["l"] or cell["frame"] != n or cell["scene"] != si:
+                    fails.append(("layout", None, f"row pair {row[0]} {side}: expected {st} {o['u']} {o['l']} frame {n} scene {si}, got {cell}"))
+                if cell["x"] is None or cell["y"] is None or cell["yaw"] is None or not (
+                        core.close(cell["x"], o["x"]) and core.close(cell["y"], o["y"]) and _angle_close(cell["yaw"], _yaw(o["yaw"]))):
+                    fails.append(("ego", None, f"row pair {row[0]} {side} {o['u']}: ego-frame pose should be ({o['x']},{o['y']},{_yaw(_norm_k(o['yaw']))}), got ({cell['x']},{cell['y']},{cell['yaw']})"))
+            if "areas" in out:
+                m = _area_claim(out["areas"], [o for o in (g, e) if o is not None], _row_area(out, row_of[k]))
+                if m:
+                    fails.append(("area", None, f"row pair {row[0]}: {m}"))
     # --- counts
     num = out["num"]
     want = {"tp": sum(len(l["tp"]) for _, _, l in frames), "fp": sum(len(l["fp"]) for _, _, l in frames),
             "tn": sum(len(l["tn"]) for _, _, l in frames), "fn": sum(len(l["fn"]) for _, _, l in frames),
-            "est": sum(len(l["results"]) for _, _, l in frames), "gt": sum(len(l["critical"]) for _, _, l in frames)}
-    # FP results carrying an ordinary ground truth (the characterisation of F11)
-    f11_pairs = []
-    for si, fr, l in frames:
-        objs = _objs_of(fr)
-        for e, g in l["fp"]:
-            if g is not None and objs[g]["l"] != FPL:
-                f11_pairs.append((si, l["n"], g))
+            "est": sum(l.get("n_results", len(l["results"] or [])) for _, _, l in frames), "gt": sum(len(l["critical"]) for _, _, l in frames)}
+    # ground truths tabulated twice (the characterisation of F11): FP pairs that hold an ordinary ground truth the frame also lists as FN
+    if layout_ok:
+        n_dup = sum(1 for it in items_l if it[0] == "FP" and it[5] and it[1] is not None)
+    else:
+        n_dup = sum(1 for it in items0 if it[0] == "FP" and it[5])
     for k in ("tp", "fp", "tn", "fn", "est", "gt"):
         v = num[k]
         if isinstance(v, dict):
@@ -1076,50 +1430,59 @@ def _check(case, out):
                 fails.append(("exception", None, f"num_{k} raised {v['err']}"))
         elif v != want[k]:
             if k == "gt":
-                fails.append(("gt_count", v - want[k] == len(f11_pairs) and len(f11_pairs) > 0,
-                              f"num_ground_truth = {v}, critical ground truths = {want[k]} (FP results carrying an ordinary GT: {len(f11_pairs)})"))
+                fails.append(("gt_count", v - want[k] == n_dup and n_dup > 0,
+                              f"num_ground_truth = {v}, critical ground truths = {want[k]} (ground truths held by an FP pair and again by an FN pair: {n_dup})"))
             else:
                 fails.append(("counts", None, f"num_{k} = {v}, pass/fail lists give {want[k]}"))
     # --- analyses: every selection must be exactly the row pairs satisfying the documented predicate, and the statement
     #     about counts / errors / confusion matrix must hold for the selected sub-table
-    layout_ok = not any(f[0] == "layout" for f in fails)
-    items_l = _items(case, out) if layout_ok else None
+    keypos = {_item_key(it): k for k, it in enumerate(items_l)} if layout_ok else {}
     for i, (sel, a) in enumerate(zip(case["sels"], out["analyses"])):
         tag = f"selection {i} {sel}"
+        if _inverted(sel):
+            continue  # outside the quantifier: whether and how it is rejected is not the property's
         if "err" in a:
-            if not (a["err"] == "AssertionError" and sel.get("distance") is not None and sel["distance"][0] >= sel["distance"][1]):
-                fails.append(("exception", None, f"{tag}: raised {a['err']}"))
+            fails.append(("exception", None, f"{tag}: raised {a['err']}"))
             continue
         sa = a.get("sel")
         K = None
         if layout_ok and sa is not None:
-            sure, unsure = _ref_select(case, out, sel, items_l)
-            got = sa["index"]
+            sure, unsure = _ref_select(case, out, sel, items_l, row_of)
             if not sa["whole_pairs"]:
-                fails.append(("selection", None, f"{tag}: the selected table splits a row pair (rows of pairs {got})"))
-            elif sorted(set(got)) != got or not set(sure) <= set(got) or not set(got) <= set(sure) | set(unsure):
-                extra = sorted(set(got) - set(sure) - set(unsure))
-                missing = sorted(set(sure) - set(got))
-                msg = f"{tag}: selected row pairs {got}, the pairs satisfying the selection are {sure}"
-                if extra:
-                    msg += f"; wrongly kept: {_describe(items_l, extra[0])}" if extra[0] < len(items_l) else f"; wrongly kept index {extra[0]}"
-                if missing:
-                    msg += f"; wrongly dropped: {_describe(items_l, missing[0])}"
-                fails.append(("selection", None, msg))
+                fails.append(("selection", None, f"{tag}: the selected table splits a row pair (rows of pairs {sa['index']})"))
             else:
-                K = got
+                got = [keypos.get(tuple(k)) if k is not None else None for k in sa["keys"]]
+                if None in got or len(set(got)) != len(got):
+                    fails.append(("selection", None, f"{tag}: the selected table holds row pairs {sa['keys']} that are not (distinct) row pairs of the table"))
+                elif not set(sure) <= set(got) or not set(got) <= set(sure) | set(unsure):
+                    # (the ORDER of the selected pairs is not demanded)
+                    extra = sorted(set(got) - set(sure) - set(unsure))
+                    missing = sorted(set(sure) - set(got))
+                    msg = f"{tag}: selected row pairs {sorted(got)}, the pairs satisfying the selection are {sure}"
+                    if extra:
+                        msg += f"; wrongly kept: {_describe(items_l, extra[0])}"
+                    if missing:
+                        msg += f"; wrongly dropped: {_describe(items_l, missing[0])}"
+                    fails.append(("selection", None, msg))
+                else:
+                    K = sorted(got)
             if a.get("none") and sure:
                 fails.append(("selection", None, f"{tag}: nothing to analyse although {len(sure)} row pairs satisfy the selection"))
             if K is not None and not a.get("none") and not K:
                 fails.append(("selection", None, f"{tag}: a result is reported although no row pair is selected"))
             if "rowwise" in sa:
-                want_rw = _ref_rowwise(case, out, sel, items_l)
+                want_rw, gt_rows = _ref_rowwise(case, out, sel, items_l, row_of)
                 for key, w in want_rw.items():
                     v = sa["rowwise"][key]
                     if isinstance(v, dict):
                         fails.append(("exception", None, f"{tag}: get_num_{key}(**selection) raised {v['err']}"))
                     elif v != w:
                         fails.append(("sel_counts", None, f"{tag}: get_num_{key}(**selection) = {v}, the pass/fail lists hold {w} such rows"))
+                v = sa["rowwise"].get("gt")
+                if isinstance(v, dict):
+                    fails.append(("exception", None, f"{tag}: get_num_ground_truth(**selection) raised {v['err']}"))
+                elif v is not None:
+                    _gt_count_fail(fails, f"{tag}: get_num_ground_truth(**selection)", v, gt_rows)
         if K is not None and "num" in sa:
             sts = [items_l[k][0] for k in K]
             want_n = {"tp": sts.count("TP"), "fp": sts.count("FP"), "tn": sts.count("TN"), "fn": sts.count("FN")}
@@ -1130,6 +1493,12 @@ def _check(case, out):
                     fails.append(("exception", None, f"{tag}: get_num_{key}(df=selection) raised {v['err']}"))
                 elif v != w:
                     fails.append(("sel_counts", None, f"{tag}: {key} count over the selection = {v}, the selected items of the pass/fail lists give {w}"))
+            v = sa["num"].get("gt")
+            if isinstance(v, dict):
+                fails.append(("exception", None, f"{tag}: get_num_ground_truth(df=selection) raised {v['err']}"))
+            elif v is not None:
+                _gt_count_fail(fails, f"{tag}: ground-truth count over the selection", v,
+                               [(items_l[k][3], items_l[k][4], items_l[k][1]["u"]) for k in K if items_l[k][1] is not None])
             pw = sum(1 for k in K if items_l[k][1] is not None and items_l[k][2] is not None)
             if sa.get("paired") != pw:
                 fails.append(("sel_counts", None, f"{tag}: get_pair_results gives {sa.get('paired')} paired rows, the selected items {pw}"))
@@ -1137,22 +1506,25 @@ def _check(case, out):
             if not _sel_kwargs(sel) and items > 0:
                 fails.append(("layout", None, f"{tag}: nothing to analyse although the table has {items} items"))
             continue
+        # "rates lie in [0,1]"
         for l, vals in a["ratio"].items():
             for name, v in zip(("TP", "FP", "TN", "FN"), vals):
-                if not (0.0 <= v <= 1.0):
-                    fails.append(("rates", (i, l, name, v), f"{tag}: rate {l}/{name} = {v} outside [0,1]"))
+                if v is None or not (0.0 <= v <= 1.0):
+                    fails.append(("rates", (i, l, name, v, _n1_exact(items_l, K, l, name, v)), f"{tag}: rate {l}/{name} = {v} outside [0,1]"))
+        # "the confusion matrix sums to the number of paired rows"
         if a["cm"] is None:
-            if a["paired_rows"] != 0:
+            if a["paired_rows"]:
                 fails.append(("cm_sum", None, f"{tag}: no confusion matrix although {a['paired_rows']} rows are paired"))
         else:
             tot = sum(sum(r) for r in a["cm"])
-            if tot != a["paired_rows"]:
+            if a["paired_rows"] is not None and tot != a["paired_rows"]:
                 fails.append(("cm_sum", None, f"{tag}: confusion matrix sums to {tot}, paired rows {a['paired_rows']}"))
-            if len(a["cm"]) != len(a["cm_labels"]) or any(len(r) != len(a["cm_labels"]) for r in a["cm"]):
+            if isinstance(a["cm_labels"], dict) or len(a["cm"]) != len(a["cm_labels"]) or any(len(r) != len(a["cm_labels"]) for r in a["cm"]):
                 fails.append(("cm_sum", None, f"{tag}: confusion matrix is not square over its index {a['cm_labels']}"))
+        # "(yaw wrapped to [-pi, pi])"
         for l, cols in a["error"].items():
             y = cols["yaw"]
-            if y is not None and y["max"] > PI + 1e-9:
+            if isinstance(y, dict) and y["max"] is not None and y["max"] > PI + 1e-9:
                 fails.append(("yaw_range", None, f"{tag}: yaw error {l} max {y['max']} > pi"))
         # reference recomputation from the generated scene, on the selected items
         if K is not None:
@@ -1176,14 +1548,17 @@ def _check(case, out):
                         errs = [g["v"][j] - e["v"][j] for g, e in ps if g["v"] is not None and e["v"] is not None]
                     ref = _summ(errs)
                     got = a["error"][lab][c]
-                    if (ref is None) != (got is None):
+                    if got == "absent":
+                        fails.append(("error", None, f"{tag}: no error summary reported for {lab}/{c}"))
+                    elif (ref is None) != (got is None):
                         fails.append(("error", None, f"{tag}: error {lab}/{c}: expected {ref}, got {got}"))
                     elif ref is not None:
-                        keys = ("rms", "max", "min") if (c == "yaw" and any(abs(abs(x) - PI) < 1e-9 for x in errs)) else ("average", "rms", "max", "min")
+                        # "with the stated mean/RMS/max summaries": average, rms, max (`min` and `std` are not clauses)
+                        keys = ("rms", "max") if (c == "yaw" and any(abs(abs(x) - PI) < 1e-9 for x in errs)) else ("average", "rms", "max")
                         for key in keys:
-                            if not core.close(got[key], ref[key]):
+                            if got[key] is None or not core.close(got[key], ref[key]):
                                 fails.append(("error", None, f"{tag}: error {lab}/{c}/{key} = {got[key]}, GT - estimate gives {ref[key]}"))
-    # --- per-object tallies: every ground truth once per frame in which it is critical
+    # --- per-object tallies: "per-object status tallies likewise record each ground truth once per frame"
     st = out["status"]
     if "err" in st:
         fails.append(("exception", None, f"get_object_status raised {st['err']}"))
@@ -1191,84 +1566,89 @@ def _check(case, out):
         groups = [(f"scene {si}", [(fr, l) for s2, fr, l in frames if s2 == si], st["scenes"][si]) for si in range(len(case["scenes"]))]
         groups.append(("all scenes", [(fr, l) for _, fr, l in frames], st["all"]))
         for name, fl, got in groups:
-            exp = {}
-            for fr, l in fl:
-                for key, us in (("tp", [g for _, g in l["tp"]]), ("fp", [g for _, g in l["fp"] if g is not None and _objs_of(fr)[g]["l"] == FPL]), ("tn", l["tn"]), ("fn", l["fn"])):
-                    for u in us:
-                        exp.setdefault(u, {"total": [], "tp": [], "fp": [], "tn": [], "fn": []})
-                        exp[u][key].append(l["n"])
-                for u in l["critical"]:
-                    exp.setdefault(u, {"total": [], "tp": [], "fp": [], "tn": [], "fn": []})
-                    exp[u]["total"].append(l["n"])
-            extra = {}
-            for fr, l in fl:
-                for e, g in l["fp"]:
-                    if g is not None and _objs_of(fr)[g]["l"] != FPL:
-                        extra.setdefault(g, []).append(l["n"])
+            crit, given, extra = _tally_reference(fl)
             gotd = {s["uuid"]: s for s in got}
             if len(gotd) != len(got):
                 fails.append(("status_once", False, f"{name}: a uuid has two status records"))
-            if set(gotd) != set(exp):
-                fails.append(("status_once", False, f"{name}: status records for {sorted(gotd)} but ground truths {sorted(exp)}"))
+            if set(gotd) != set(crit) | set(given):
+                fails.append(("status_once", False, f"{name}: status records for {sorted(gotd)} but ground truths {sorted(set(crit) | set(given))}"))
                 continue
-            for u, e in exp.items():
-                s = gotd[u]
-                if sorted(s["total"]) != sorted(e["total"]) or any(sorted(s[k]) != sorted(e[k]) for k in ("tp", "fp", "tn", "fn")):
-                    # exactly F11: one extra FP entry (and total entry) per frame in which an FP result carries this ordinary GT
-                    x = extra.get(u, [])
-                    exact = bool(x) and sorted(s["total"]) == sorted(e["total"] + x) and sorted(s["fp"]) == sorted(e["fp"] + x) and all(sorted(s[k]) == sorted(e[k]) for k in ("tp", "tn", "fn"))
-                    fails.append(("status_once", exact, f"{name}: ground truth {u} tallied total={s['total']} tp={s['tp']} fp={s['fp']} tn={s['tn']} fn={s['fn']}, critical in frames {e['total']}"))
-    # --- status rates: rate = #frames tallied with that status / #frames tallied (the tallies themselves are judged above);
-    #     every defined rate lies in [0,1]; float('inf') for a status that never occurred is not judged (observed:status-rate-inf)
-    sr = out.get("status_rates")
-    if sr is not None and "err" in sr:
-        fails.append(("exception", None, f"get_status_rates / get_scene_rates raised {sr['err']}"))
-    elif sr is not None and "err" not in st:
-        for name, g, tallies in [(f"scene {i}", x, st["scenes"][i]) for i, x in enumerate(sr["scenes"])] + [("all scenes", sr["all"], st["all"])]:
-            if [x["uuid"] for x in g["records"]] != [t["uuid"] for t in tallies]:
-                fails.append(("status_rate", None, f"{name}: rate records {[x['uuid'] for x in g['records']]} for tallies {[t['uuid'] for t in tallies]}"))
-                continue
-            sums = {"total": 0, "TP": 0, "FP": 0, "TN": 0, "FN": 0}
-            for x, t in zip(g["records"], tallies):
-                tot = len(t["total"])
-                sums["total"] += tot
-                if x["order"] != ["TP", "FP", "TN", "FN"]:
-                    fails.append(("status_rate", None, f"{name}: get_status_rates of {x['uuid']} in order {x['order']}"))
-                    continue
-                for stn, v in zip(x["order"], x["rates"]):
-                    c = len(t[stn.lower()])
-                    sums[stn] += c
-                    if c == 0 or tot == 0:
-                        if v != "inf" and v != 0.0:
-                            fails.append(("status_rate", None, f"{name}: rate {x['uuid']}/{stn} = {v} for a status that never occurred"))
-                        continue
-                    if v in ("inf", "nan") or not (0.0 <= v <= 1.0) or abs(v - c / tot) > 1e-12:
-                        fails.append(("status_rate", None, f"{name}: rate {x['uuid']}/{stn} = {v}, tallied in {c} of {tot} frames"))
-            if sums["total"] == 0:
-                if g["scene"] != ["inf"] * 4:  # documented: "If status_list is empty, returns sequence of float('inf')"
-                    fails.append(("status_rate", None, f"{name}: scene rates {g['scene']} with nothing tallied"))
-            else:
-                vals = g["scene"]
-                if any(v in ("inf", "nan") for v in vals):
-                    fails.append(("status_rate", None, f"{name}: scene rates {vals} although {sums['total']} frames are tallied"))
-                else:
-                    for stn, v in zip(("TP", "FP", "TN", "FN"), vals):
-                        if not (0.0 <= v <= 1.0) or abs(v - sums[stn] / sums["total"]) > 1e-12:
-                            fails.append(("status_rate", None, f"{name}: scene rate {stn} = {v}, tallied {sums[stn]} of {sums['total']}"))
-                    if abs(sum(vals) - 1.0) > 1e-9:
-                        fails.append(("status_rate", None, f"{name}: scene rates {vals} do not sum to 1"))
+            for u in sorted(gotd):
+                verdict = _tally_verdict(gotd[u], crit.get(u, []), given.get(u, {}), extra.get(u, []))
+                if verdict != "once":
+                    s = gotd[u]
+                    fails.append(("status_once", verdict == "f11", f"{name}: ground truth {u} tallied total={s['total']} tp={s['tp']} fp={s['fp']} tn={s['tn']} fn={s['fn']}, critical in frames {crit.get(u, [])}"))
     return fails
 
 
+def _tally_reference(fl):
+    """per uuid: the frames in which it is critical; the (status -> frames) the pass/fail lists give it; the frames of finding F11 (an FP
+    result carries it as an ordinary ground truth that the frame also lists as FN)"""
+    crit, given, extra = {}, {}, {}
+    for fr, l in fl:
+        objs = _objs_of(fr)
+        for key, us in (("tp", [g for _, g in l["tp"]]), ("fp", [g for _, g in l["fp"] if g is not None]), ("tn", l["tn"]), ("fn", l["fn"])):
+            for u in us:
+                if u is not None:
+                    given.setdefault(u, {"tp": [], "fp": [], "tn": [], "fn": []})[key].append(l["n"])
+        for u in l["critical"]:
+            crit.setdefault(u, []).append(l["n"])
+        for e, g in l["fp"]:
+            if _is_f11(objs, l, g):
+                extra.setdefault(g, []).append(l["n"])
+    return crit, given, extra
+
+
+def _sub_multiset(a, b):
+    b = list(b)
+    for x in a:
+        if x in b:
+            b.remove(x)
+        else:
+            return False
+    return True
+
+
+def _tally_verdict(s, crit, given, extra):
+    """'once'  = the property's clause: the tallied frames are exactly the frames in which the ground truth is critical, the four status
+                 lists partition them, and every entry stands under a status the pass/fail lists give this ground truth in that frame
+                 (the text does not say under which of them a ground truth carried by a failing estimate is to be tallied);
+       'f11'   = exactly the listed deviation: every status the lists give is tallied, i.e. one extra (total, FP) entry per F11 frame;
+       'other' = anything else"""
+    g = {k: given.get(k, []) for k in ("tp", "fp", "tn", "fn")}
+    parts = sorted(s["tp"] + s["fp"] + s["tn"] + s["fn"])
+    if sorted(s["total"]) == sorted(crit) and parts == sorted(s["total"]) and all(_sub_multiset(s[k], g[k]) for k in g):
+        return "once"
+    if extra and sorted(s["total"]) == sorted(crit + extra) and all(sorted(s[k]) == sorted(g[k]) for k in g) and parts == sorted(s["total"]):
+        return "f11"
+    return "other"
+
+
+def _n1_exact(items_l, K, lab, name, v):
+    """a rate failure that is exactly N1 (known_findings.json: "per-label TP rate = #TP estimates with that EST label / #ground-truth rows
+    with that GT label ... exceeds 1 when TP pairs have different labels"): a per-label TP rate above one whose VALUE is that quotient over the
+    selected row pairs K, with a TP pair INSIDE K whose estimate carries the label while its ground truth carries another"""
+    if items_l is None or K is None or lab == "ALL" or name != "TP" or v is None or not v > 1.0:
+        return False
+    tp = sum(1 for k in K if items_l[k][0] == "TP" and items_l[k][2]["l"] == lab)
+    gt = sum(1 for k in K if items_l[k][1] is not None and items_l[k][1]["l"] == lab)
+    witness = any(items_l[k][0] == "TP" and items_l[k][2]["l"] == lab and items_l[k][1] is not None and items_l[k][1]["l"] != lab for k in K)
+    return witness and gt > 0 and abs(v - tp / gt) <= 1e-12
+
+
 def _oracle_area(case, out):
-    """the analyzer must be able to tabulate an item at ANY ego-frame position: get_area_idx answers None or the index of a
-    rectangle of the grid that strictly contains the position, and never raises"""
+    """the analyzer must be able to tabulate an item at ANY ego-frame position: get_area_idx never raises; a position strictly inside a cell
+    of the grid gets that cell; on a grid line the text leaves open whether the position belongs to an adjacent cell or to none; strictly
+    outside the field it belongs to none"""
     x, y = Fraction(case["x"]), Fraction(case["y"])
     where = f"division {case['division']}, max ({case['max_x']}, {case['max_y']}), ego-frame position ({case['x']}, {case['y']})"
+    if out.get("unexpected"):
+        return None
     if "err" in out:
         return f"{out.get('stage')} raised {out['err']} ({where}): the analyzer cannot tabulate an item there"
     ur, bl = out["areas"]["ur"], out["areas"]["bl"]
     inside = [i for i, (u, b) in enumerate(zip(ur, bl)) if Fraction(b[0]) < x < Fraction(u[0]) and Fraction(u[1]) < y < Fraction(b[1])]
+    closed = [i for i, (u, b) in enumerate(zip(ur, bl)) if Fraction(b[0]) <= x <= Fraction(u[0]) and Fraction(u[1]) <= y <= Fraction(b[1])]
     # independent reference: the thirds of [-max, max] (exact), only when the bounds are thirds-exact in floats
     mx, my = Fraction(case["max_x"]), Fraction(case["max_y"])
     nx = 1 if case["division"] == 1 else 3
@@ -1276,20 +1656,22 @@ def _oracle_area(case, out):
     in_x = any(-mx + 2 * mx * k / nx < x < -mx + 2 * mx * (k + 1) / nx for k in range(nx))
     in_y = any(-my + 2 * my * k / ny < y < -my + 2 * my * (k + 1) / ny for k in range(ny))
     a = out["area"]
-    if a is None:
-        if in_x and in_y:
+    if in_x and in_y:
+        if a is None:
             return f"get_area_idx = None although the position lies strictly inside a cell ({where})"
+        if inside != [a]:
+            return f"get_area_idx = {a}, but the rectangles of the grid strictly containing the position are {inside} ({where})"
         return None
-    if not (in_x and in_y):
-        return f"get_area_idx = {a} although the position lies on a grid line or outside the field ({where})"
-    if inside != [a]:
-        return f"get_area_idx = {a}, but the rectangles of the grid strictly containing the position are {inside} ({where})"
+    if a is not None and a not in closed:
+        return f"get_area_idx = {a} although the position lies outside that rectangle ({where})"
     return None
 
 
 def _oracle_rows(case, out):
-    """one row pair per TP, FP, TN, FN item, in this order, numbered 0, 1, ...; TP / FP: (ground-truth row or the all-None row,
-    estimation row) with the list's status; TN / FN: (ground-truth row, all-None row)"""
+    """one row pair per TP, FP, TN, FN item (any order, any numbering); TP / FP: (ground-truth row or the all-None row, estimation row) with
+    the list's status; TN / FN: (ground-truth row, all-None row)"""
+    if out.get("unexpected") or "unobservable" in out:
+        return None
     if "err" in out:
         return f"{out.get('stage')} raised {out['err']} for a frame with counts {case['counts']}"
     rows = out["rows"]
@@ -1301,22 +1683,30 @@ def _oracle_rows(case, out):
             st = ("TP", "FP", "TN", "FN")[kind]
             if kind < 2:
                 none = (case["tp_none"] if kind == 0 else case["fp_none"])[i]
-                exp.append((None if none else (st, f"g{j}"), (st, f"e{j}")))
+                exp.append((0, 7, st, None if none else f"g{j}", f"e{j}"))
             else:
-                exp.append(((st, f"g{j}"), None))
+                exp.append((0, 7, st, f"g{j}", None))
             j += 1
     if isinstance(rows, dict) or len(rows) != len(exp):
         return f"table has {rows if isinstance(rows, dict) else len(rows)} row pairs for {len(exp)} items (counts {case['counts']})"
-    for k, (row, (eg, ee)) in enumerate(zip(rows, exp)):
-        if row[0] != k or row[3] != k or row[1] != "ground_truth" or row[4] != "estimation":
-            return f"row pair {k}: index/side {row[:2]} {row[3:5]}"
-        for side, want, cell in (("ground_truth", eg, row[2]), ("estimation", ee, row[5])):
-            got = None if cell is None else (cell["st"], cell["u"])
-            if got != want:
-                return f"row {k} {side}: expected {want or 'the all-None row'}, got {got or 'the all-None row'} (counts {case['counts']}, tp_none {case['tp_none']}, fp_none {case['fp_none']})"
-            if cell is not None and (cell["frame"] != 7 or cell["scene"] != 0):
-                return f"row {k} {side}: frame/scene {cell['frame']}/{cell['scene']}, expected 7/0"
+    got = _row_keys(rows)
+    # an FP result carrying a ground truth: the pair may hold the estimate only ("which row owns the ground truth" is the open design
+    # decision of finding F11; the synthetic frame has no FN twin to look at)
+    exp = [(k[0], k[1], k[2], None, k[4]) if (k not in got and k[2] == "FP" and k[3] is not None and (k[0], k[1], k[2], None, k[4]) in got) else k for k in exp]
+    if sorted(got, key=str) != sorted(exp, key=str):
+        missing = [k for k in exp if k not in got]
+        extra = [k for k in got if k not in exp]
+        return (f"row pairs (scene, frame, status, ground truth, estimate): missing {missing[:3]}, unexpected {extra[:3]} "
+                f"(counts {case['counts']}, tp_none {case['tp_none']}, fp_none {case['fp_none']})")
+    for row in rows:
+        for cell in (row[2], row[5]):
+            if cell is not None and (cell["frame"] != 7 or cell["scene"] != 0 or cell["st"] != _pair_key(row[2], row[5])[2]):
+                return f"row pair {row[0]}: frame/scene/status {cell['frame']}/{cell['scene']}/{cell['st']}, expected 7/0/{_pair_key(row[2], row[5])[2]}"
     return None
+
+
+def _explained(f):
+    return (f[0] in ("gt_count", "status_once") and f[1] is True) or (f[0] == "empty_counts" and f[1] == "TypeError") or (f[0] == "rates" and f[1][4])
 
 
 def oracle(case, out):
@@ -1328,26 +1718,12 @@ def oracle(case, out):
     if not fails:
         return None
     # clauses that a listed finding explains go last, so that a new violation is named first
-    explained = lambda f: (f[0] in ("gt_count", "status_once") and f[1] is True) or f[0] == "empty_counts" or (f[0] == "rates" and _n1_explains(case, out, f[1]))  # noqa: E731
-    fails = [f for f in fails if not explained(f)] + [f for f in fails if explained(f)]
+    fails = [f for f in fails if not _explained(f)] + [f for f in fails if _explained(f)]
     return "; ".join(m for _, _, m in fails[:6]) + (f" (+{len(fails) - 6} more)" if len(fails) > 6 else "")
 
 
-def _n1_explains(case, out, info):
-    """a rate failure that is exactly N1: a per-label TP rate above one on a label carried by a TP estimate whose GT has another label"""
-    i, lab, name, v = info
-    if lab == "ALL" or name != "TP" or not v > 1.0:
-        return False
-    for sc_case, sc_out in zip(case["scenes"], out["frames"]):
-        for fr, l in zip(sc_case, sc_out):
-            objs = _objs_of(fr)
-            for e, g in l["tp"]:
-                if objs[e]["l"] == lab and objs[g]["l"] != lab:
-                    return True
-    return False
-
-
 def known_finding(case, out, failure):
+    """only ids of kind "known" in known_findings.json (F11, N1, N2), and only when EVERY failing clause is exactly a listed deviation"""
     if case.get("kind") in ("area", "rows"):
         return None
     fails = _check(case, out)
@@ -1357,9 +1733,9 @@ def known_finding(case, out, failure):
     for tag, info, _ in fails:
         if tag in ("gt_count", "status_once") and info is True:
             ids.append(F11)
-        elif tag == "rates" and _n1_explains(case, out, info):
+        elif tag == "rates" and info[4]:
             a = out["analyses"][info[0]]
-            if all(0.0 <= x <= 1.0 for x in a["ratio"]["ALL"]):
+            if all(x is not None and 0.0 <= x <= 1.0 for x in a["ratio"].get("ALL", [None])):
                 ids.append(N1)
             else:
                 return None
@@ -1886,13 +2262,16 @@ def corpus():
 
 def branches(case, out):
     if case.get("kind") in ("area", "rows"):
-        return [f"kind:{case['kind']}", "table:witness"] + _table_branches() + (["impl-error:" + str(out.get("err"))] if "err" in out else [])
+        return [f"kind:{case['kind']}", "table:witness"] + _table_branches() + (["impl-error:" + str(out.get("err"))] if "err" in out else []) + (
+            ["unobservable:" + str(out["unobservable"])] if "unobservable" in out else [])
     b = _table_branches() + [f"frame:{case['frame_id']}", f"task:{case['task']}", f"division:{case['division']}", f"policy:{case['policy']}",
          f"range:{case['range']['kind']}", f"radii:{case.get('radii')}", f"scenes:{len(case['scenes'])}",
          f"frames:{sum(len(s) for s in case['scenes'])}", f"flavour:{case.get('flavour')}"]
     if "frames" not in out or "err" in out or isinstance(out.get("rows"), dict):
         return b + ["impl-error:" + str(out.get("err")), "trivial"]
     ls = [l for sc in out["frames"] for l in sc]
+    if not _passfail_observable(out):
+        b.append("unobservable:passfail-results")
     nrows = len(out["rows"])
     if nrows == 0:
         b.append("trivial")
@@ -1932,10 +2311,7 @@ def branches(case, out):
             if c is not None and c["area"] is None:
                 b.append("area:None")
                 break
-    try:
-        items_l = _items(case, out)
-    except Exception:  # noqa: BLE001
-        items_l = []
+    items_l = [it[:5] for it in _items(case, out)]
     for sel, a in zip(case["sels"], out["analyses"]):
         keys = "+".join(sorted(k for k in _sel_kwargs(sel))) or "all"
         res = "err:" + a["err"] if "err" in a else "none" if a.get("none") else "ok"
@@ -1971,10 +2347,10 @@ def branches(case, out):
                     b.append(f"sel-class:{key}-on-one-row-of-a-pair")
         if "ratio" in a:
             b.append("cm:" + ("none" if a["cm"] is None else "some"))
-            if any(v is None for v in a["error"]["ALL"].values()):
+            if any(v is None or v == "absent" for v in a["error"]["ALL"].values()):
                 b.append("error-summary:NaN")
             for l, vals in a["ratio"].items():
-                if any(v > 1.0 for v in vals):
+                if any(v is not None and v > 1.0 for v in vals):
                     b.append("rate>1(N1)")
     for k, v in out["num"].items():
         if isinstance(v, dict):
@@ -2001,6 +2377,7 @@ def branches(case, out):
                     b.append("status-rate:two-statuses-for-one-gt")
             b.append("scene-rates:" + ("inf" if g["scene"] == ["inf"] * 4 else "defined"))
     elif isinstance(sr, dict):
+        b.append("unobservable:status-rates")
         b.append("status-rates-raise:" + sr["err"])
     return sorted(set(b))
 
